@@ -1,1 +1,1 @@
-import Hive.Proofs.C12aHeapPerm
+import Hive.Proofs.C12aHeapOrd
